@@ -358,7 +358,9 @@ def admissible(p, t, v):
         return False
     if t.type in (int, float) and isinstance(v, bool):
         return False
-    if t.type is int and not isinstance(v, int):
+    # a number of another numeric type is admissible whenever the parameter's own checks accept it
+    # (e.g. missing_data: declared int, checked with is_number only)
+    if t.type is int and not isinstance(v, (int, float)):
         return False
     if t.type is str and not isinstance(v, str):
         return False
@@ -431,7 +433,8 @@ def run_toml(tier='quick', seed=0):
         return n, bad[:2] + diag
     rng = np.random.default_rng(seed + 4)
     for key, t in base.all_parameters_dict.items():
-        for v in GRID[t.type] + [t.value]:
+        extra_vals = [-999.5, 99999.99, 2.5] if t.type is int else ([3, -2] if t.type is float else [])
+        for v in GRID[t.type] + extra_vals + [t.value]:
             if not admissible(base, t, v):
                 continue
             p = Parameters()
